@@ -159,6 +159,8 @@ def quick_cases(ctx, calls):
 
 
 def thorough_base(ctx, calls):
+    """P1: both roles x every NetSim loss (all garbage variants) x {before, after}, and every way the
+    real ProxyCommand relay can exit x {before, after}."""
     out = []
     for call in calls:
         spec = CALLS[call]
@@ -166,16 +168,24 @@ def thorough_base(ctx, calls):
             for loss, var in LINK_LOSSES:
                 for timing in ("before", "after"):
                     out.append(mk(call, loss, var, timing, role=role))
+        for var in PROXY_EXITS:
+            for timing in ("before", "after"):
+                out.append(mk(call, "proxy_exit", var, timing, medium="proxy"))
+    return out
+
+
+def thorough_extra(ctx, calls):
+    """P3: real TCP sockets, the other loss kinds over the ProxyCommand, timeouts."""
+    out = []
+    for call in calls:
+        spec = CALLS[call]
+        for role in spec["roles"]:
             for loss, var in (("peer_close", None), ("link_abrupt", None), ("link_eof", None)):
                 for timing in ("before", "after"):
                     out.append(mk(call, loss, var, timing, role=role, medium="tcp"))
-        if "client" in spec["roles"]:
-            for var in PROXY_EXITS:
-                for timing in ("before", "after"):
-                    out.append(mk(call, "proxy_exit", var, timing, medium="proxy"))
-            for loss, var in (("local_close", None), ("peer_close", None), ("garbage", "bad_mac")):
-                for timing in ("before", "after"):
-                    out.append(mk(call, loss, var, timing, medium="proxy"))
+        for loss, var in (("local_close", None), ("peer_close", None), ("garbage", "bad_mac")):
+            for timing in ("before", "after"):
+                out.append(mk(call, loss, var, timing, medium="proxy"))
         if spec.get("tmo"):
             for loss, var in (("peer_close", None), ("local_close", None), ("link_abrupt", None)):
                 out.append(mk(call, loss, var, "before", tmo=2.0))
@@ -208,13 +218,12 @@ def thorough_during(ctx, calls, nlines):
             for loss, var in LINK_LOSSES:
                 if (loss, var) == (sweep_loss, sweep_var) and role == spec["roles"][0]:
                     continue
-                for _ in range(2):
-                    out.append(mk(call, loss, var, "during", role=role, k=rng.randrange(n)))
-        if "client" in spec["roles"]:
-            for var in PROXY_EXITS:
-                out.append(mk(call, "proxy_exit", var, "during", medium="proxy", k=rng.randrange(n)))
-            out.append(mk(call, "peer_close", None, "during", medium="tcp", k=rng.randrange(n)))
-            out.append(mk(call, "link_abrupt", None, "during", medium="tcp", k=rng.randrange(n)))
+                out.append(mk(call, loss, var, "during", role=role, k=rng.randrange(n)))
+        for var in PROXY_EXITS:
+            out.append(mk(call, "proxy_exit", var, "during", medium="proxy", k=rng.randrange(n)))
+        out.append(mk(call, "peer_close", None, "during", medium="tcp", k=rng.randrange(n)))
+        out.append(mk(call, "link_abrupt", None, "during", medium="tcp", k=rng.randrange(n)))
+        out.extend(c for c in pinned(call, ctx.seed, ci) if c.get("at"))
     return out
 
 
@@ -484,15 +493,16 @@ def _run(ctx):
         for l in ("peer_close", "link_eof", "link_abrupt", "local_close", "garbage", "proxy_exit"):
             ctx.require("loss_" + l, len(names) - 4)
         return
-    stop_at = ctx.t0 + 400
+    stop_at = ctx.t0 + 450
     base = [dict(c, count_lines=True) if c["timing"] == "before" else c for c in thorough_base(ctx, calls)]
     res = run_batch(ctx, base, 4, window, samples_wanted=2)
     nlines = lines_measured(ctx, res)
-    during = thorough_during(ctx, calls, nlines)
-    ctx.rng.shuffle(during)
-    run_batch(ctx, during, 4, window, stop_at=stop_at, samples_wanted=1)
-    ctx.require("cases_run", 60 * len(names))
-    ctx.require("calls_completed_after_loss", 30 * len(names))
-    ctx.require("transport_inactive_after_loss", 30 * len(names))
-    ctx.require("preemption_points_reached", 10 * len(names))
-    ctx.require("relay_process_exits_observed", 4 * len(names))
+    rest = thorough_during(ctx, calls, nlines) + thorough_extra(ctx, calls)
+    ctx.rng.shuffle(rest)
+    ctx.note("thorough_cases_planned_this_shard", len(base) + len(rest))
+    run_batch(ctx, rest, 4, window, stop_at=stop_at, samples_wanted=1)
+    ctx.require("cases_run", 24 * len(names))
+    ctx.require("calls_completed_after_loss", 20 * len(names))
+    ctx.require("transport_inactive_after_loss", 20 * len(names))
+    ctx.require("preemption_points_reached", 2 * len(names))
+    ctx.require("relay_process_exits_observed", 6 * len(names))
